@@ -5,6 +5,16 @@ HERE = os.path.dirname(os.path.dirname(os.path.abspath(__file__)))
 
 # id -> (technique, level text, level note, design ref)
 CHECKS = {
+ "C15": (
+  "hypothesis PBT: call-recorder on the sweep (.py_func), jitted all-sites-flip witness, partition invariant on random_breaks, differential single-SNV posterior oracle with thresholds drawn on realised values",
+  "Exploration: for generated ploidy/locus sizes (incl. >127 SNVs) the multiset of attempted (haplotype,site) pairs must be exactly all pairs once, a jitted witness run must have flipped every cell, random interval sets must partition the range, and the set of SNVs withheld from / restored into the trace must equal the set whose independent single-SNV homozygous posterior reaches the threshold (>=, decided exactly on realised values).",
+  "Reference single-SNV posterior in pure python; |p-threshold|<1e-9 skipped unless the threshold is bit-identical to the code's own value; worker crashes (segfault) are reported as violations with the journalled case.",
+  "DESIGN.md §4 C15"),
+ "C17": (
+  "exhaustive enumeration over small allele sets + hypothesis PBT: sum-to-one over all progeny genotypes / gametes, positivity <=> Mendelian validity predicate; chromosome-copy enumeration model as diagnostic differential",
+  "Exploration: thousands of founder/duo/trio configurations (ploidy 2/4/6, unbalanced and clonal tau, lambda, error incl. 0 and 1, frequency vectors incl. zeros), each evaluated over ALL unordered progeny genotypes; gamete pmf summed over all gametes; with zero error the support must coincide with trio_valid/duo_valid.",
+  "Sums at 1e-9; lambda>0 only with tau=2 (documented); agreement with the independent meiosis enumeration is recorded, not asserted.",
+  "DESIGN.md §4 C17"),
  "C04": (
   "hypothesis PBT: differential against a pure-python reference likelihood + metamorphic relations (haplotype/read permutation, count==duplication, rearranged-genotype identity, wrapper equivalences)",
   "Exploration: thousands of generated read tensors (gaps, partial NaN, exact zeros, weighted duplicates) x genotypes x rearrangement vectors x intervals; every likelihood entry point (assemble, structural change, call wrapper, pedigree wrapper with zero-count padding; jitted and .py_func) must equal the documented formula and satisfy each stated symmetry at 1e-9.",
